@@ -335,7 +335,7 @@ func doWorker() int {
 		}
 		if res.OtherRule != "" {
 			s.Other[res.OtherRule]++
-			if len(s.OtherSeeds) < 4 {
+			if s.Other[res.OtherRule] <= 2 {
 				s.OtherSeeds = append(s.OtherSeeds, fmt.Sprintf("%s run-seed=%d", res.OtherRule, rs))
 			}
 		}
@@ -620,8 +620,10 @@ func doLeader() int {
 			total.Faults[k] += v
 		}
 		total.Violations = append(total.Violations, s.Violations...)
-		if len(total.OtherSeeds) < 12 {
-			total.OtherSeeds = append(total.OtherSeeds, s.OtherSeeds...)
+		for _, o := range s.OtherSeeds {
+			if len(total.OtherSeeds) < 40 {
+				total.OtherSeeds = append(total.OtherSeeds, o)
+			}
 		}
 		if len(total.Samples) < 3 {
 			total.Samples = append(total.Samples, s.Samples...)
